@@ -64,6 +64,21 @@ def render_tokens(toks):
     return " ".join(text(t) for t in toks)
 
 
+def render_holes(toks, fill):
+    """token sequence with holes ("<L1>", "<L2>": text chosen by the specification, given in `fill`) -> text.
+    One blank between two items, none around the glue item "<+>"."""
+    out, glue = [], True
+    for t in toks:
+        if t == "<+>":
+            glue = True
+            continue
+        if not glue:
+            out.append(" ")
+        out.append(fill[t] if t in fill else text(t))
+        glue = False
+    return "".join(out)
+
+
 def _is_word(t):
     return t[0].isalnum() or t[0] in "_$"
 
